@@ -147,6 +147,11 @@ def r1(prog, res):
                 l, r = strip(n["ch"][0]), strip(n["ch"][1])
                 if l["k"] == "Call" and (l.get("fn") or "").endswith("ErrorDescriptor::severity") and "val" in r:
                     obj = strip(l["ch"][0])
+                    if obj["k"] == "Member" and obj.get("n") == "_error":
+                        # the attribute's own descriptor, asked right after CheckRemainingInput: the table's inputs are `$` / `,` / `)`
+                        # followed by a delimiter (a conforming unset value), for which CheckRemainingInput records nothing
+                        v = sev["SEVERITY_NULL"]
+                        return (v <= r["val"]) if n["op"] == "<=" else (v < r["val"])
                     if obj["k"] == "Ref" and obj.get("dk") == "local":
                         filler, reader = scan_effects(path)
                         if reader is None:
